@@ -1052,6 +1052,179 @@ theorem updN_total : ∀ (k : Nat) (s : StaticSound ℝ), s.InDomain → ∃ s',
     obtain ⟨s2, h2, hd2⟩ := ih s1 hd1
     exact ⟨s2, by rw [updN_succ, h1]; exact h2, hd2⟩
 
+/-! ### the natural end -/
+
+theorem updatePosition_playing (s : StaticSound ℝ) (hs : s.SliceOk) (hp : s.transport.playing = true)
+    (t' : Transport) (ht : stepDir s.isPlayingBackwards s.nFrames s.transport = .ok t') :
+    ∃ f, s.updatePosition = .ok { s with resampler := s.resampler.pushFrame (some f) s.transport.position,
+                                         transport := t' } := by
+  obtain ⟨s1, h1⟩ := pushFrame_total s hs
+  have h1' := h1
+  unfold pushFrameToResampler at h1'
+  simp only [hp, if_true] at h1'
+  cases hf : frameAtIndex s.transport.position s.frames s.slice with
+  | error f => simp [hf] at h1'
+  | ok fo =>
+    simp only [hf] at h1'
+    injection h1' with h1'
+    refine ⟨fo.getD Frame.zero, ?_⟩
+    unfold updatePosition
+    rw [h1, ← h1']
+    have hm : moveTransport { s with resampler := s.resampler.pushFrame (some (fo.getD Frame.zero)) s.transport.position }
+        = .ok t' := by
+      unfold moveTransport
+      have : isPlayingBackwards { s with resampler := s.resampler.pushFrame (some (fo.getD Frame.zero)) s.transport.position }
+          = s.isPlayingBackwards := rfl
+      rw [this]
+      simp only [numFrames_ok s hs]
+      exact ht
+    simp only [hm]
+    simp [Resampler.pushFrame, Resampler.empty]
+
+theorem updatePosition_ended (s : StaticSound ℝ) (hs : s.SliceOk) (hp : s.transport.playing = false) :
+    s.updatePosition = .ok (if s.resampler.timeUntilEmpty - 1 = 0
+      then { s with resampler := s.resampler.pushFrame none s.transport.position, core := s.core.markStopped }
+      else { s with resampler := s.resampler.pushFrame none s.transport.position }) := by
+  have ht : stepDir s.isPlayingBackwards s.nFrames s.transport = .ok s.transport := by
+    unfold stepDir
+    split
+    · exact Transport.decrement_stopped _ hp
+    · exact Transport.increment_stopped _ _ hp
+  unfold updatePosition pushFrameToResampler
+  simp only [hp]
+  have hm : moveTransport { s with resampler := s.resampler.pushFrame none s.transport.position } = .ok s.transport := by
+    unfold moveTransport
+    have : isPlayingBackwards { s with resampler := s.resampler.pushFrame none s.transport.position }
+        = s.isPlayingBackwards := rfl
+    rw [this]
+    simp only [numFrames_ok s hs]
+    exact ht
+  simp only [Bool.false_eq_true, if_false, hm, hp]
+  by_cases he : s.resampler.timeUntilEmpty - 1 = 0
+  · simp [he, Resampler.pushFrame, Resampler.empty]
+  · simp [he, Resampler.pushFrame, Resampler.empty]
+
+/-- the state is Stopped -/
+def IsStopped (s : StaticSound ℝ) : Prop := s.core.psm.state = .stopped ∧ s.core.shared = .stopped
+
+theorem markStopped_isStopped (c : SoundCore ℝ) : c.markStopped.psm.state = .stopped ∧ c.markStopped.shared = .stopped := by
+  simp [SoundCore.markStopped, SoundCore.syncShared, Psm.markAsStopped, Psm.playbackState]
+
+/-- **draining**: once the transport has ended with `e ≥ 1` frames still in the window, the sound
+    keeps its state for `e − 1` more position steps and is Stopped after exactly `e`. -/
+theorem drain : ∀ (e : Nat) (s : StaticSound ℝ), s.SliceOk → s.transport.playing = false →
+    s.resampler.timeUntilEmpty = e → 1 ≤ e →
+    (∃ s', updN e s = .ok s' ∧ s'.IsStopped) ∧ ∀ j, j < e → ∃ sj, updN j s = .ok sj ∧ sj.core = s.core := by
+  intro e
+  induction e with
+  | zero => intro s _ _ _ h; omega
+  | succ e ih =>
+    intro s hs hp he _
+    have hu := updatePosition_ended s hs hp
+    by_cases h0 : e = 0
+    · subst h0
+      simp only [he] at hu
+      simp only [if_true] at hu
+      refine ⟨⟨{ s with resampler := s.resampler.pushFrame none s.transport.position, core := s.core.markStopped },
+        by rw [updN_succ, hu]; rfl, markStopped_isStopped s.core⟩, fun j hj => ?_⟩
+      have : j = 0 := by omega
+      subst this; exact ⟨s, rfl, rfl⟩
+    · have hne : ¬ (s.resampler.timeUntilEmpty - 1 = 0) := by omega
+      simp only [hne, if_false] at hu
+      have := ih { s with resampler := s.resampler.pushFrame none s.transport.position } hs hp
+        (by simp [Resampler.pushFrame, he]) (by omega)
+      obtain ⟨⟨s', h1, h2⟩, h3⟩ := this
+      refine ⟨⟨s', by rw [updN_succ, hu]; exact h1, h2⟩, fun j hj => ?_⟩
+      match j with
+      | 0 => exact ⟨s, rfl, rfl⟩
+      | j + 1 =>
+        obtain ⟨sj, h4, h5⟩ := h3 j (by omega)
+        exact ⟨sj, by rw [updN_succ, hu]; exact h4, h5⟩
+
+/-- **forwards without a loop**: from play-head position `p` the transport ends after
+    `max (n − p) 1` steps, and the sound is Stopped exactly 4 steps later — not earlier. -/
+theorem forward_ends : ∀ (m : Nat) (s : StaticSound ℝ), s.SliceOk → s.transport.playing = true →
+    s.transport.loopRegion = none → s.isPlayingBackwards = false →
+    m = max (s.nFrames - s.transport.position) 1 →
+    (∃ s', updN (m + 4) s = .ok s' ∧ s'.IsStopped) ∧ ∀ j, j < m + 4 → ∃ sj, updN j s = .ok sj ∧ sj.core = s.core := by
+  intro m
+  induction m with
+  | zero => intro s _ _ _ _ h; omega
+  | succ m ih =>
+    intro s hs hp hl hbw hm
+    have ht : stepDir s.isPlayingBackwards s.nFrames s.transport
+        = .ok { s.transport with position := s.transport.position + 1,
+                                 playing := decide (s.transport.position + 1 < s.nFrames) } := by
+      unfold stepDir; simp only [hbw]; exact Transport.increment_noLoop _ _ hp hl
+    obtain ⟨f, hu⟩ := updatePosition_playing s hs hp _ ht
+    by_cases hend : s.transport.position + 1 < s.nFrames
+    · -- still playing
+      have hm' : m = max (s.nFrames - (s.transport.position + 1)) 1 := by omega
+      have := ih { s with resampler := s.resampler.pushFrame (some f) s.transport.position,
+                          transport := { s.transport with position := s.transport.position + 1,
+                                                          playing := decide (s.transport.position + 1 < s.nFrames) } }
+        hs (by simp [hend]) hl hbw hm'
+      obtain ⟨⟨s', h1, h2⟩, h3⟩ := this
+      refine ⟨⟨s', by rw [show m + 1 + 4 = (m + 4) + 1 by omega, updN_succ, hu]; exact h1, h2⟩, fun j hj => ?_⟩
+      match j with
+      | 0 => exact ⟨s, rfl, rfl⟩
+      | j + 1 =>
+        obtain ⟨sj, h4, h5⟩ := h3 j (by omega)
+        exact ⟨sj, by rw [updN_succ, hu]; exact h4, h5⟩
+    · -- this was the last frame: the transport has ended, 4 frames are in the window
+      have hm0 : m = 0 := by omega
+      subst hm0
+      have := drain 4 { s with resampler := s.resampler.pushFrame (some f) s.transport.position,
+                               transport := { s.transport with position := s.transport.position + 1,
+                                                               playing := decide (s.transport.position + 1 < s.nFrames) } }
+        hs (by simp [hend]) (by simp [Resampler.pushFrame]) (by omega)
+      obtain ⟨⟨s', h1, h2⟩, h3⟩ := this
+      refine ⟨⟨s', by rw [show 0 + 1 + 4 = 4 + 1 by omega, updN_succ, hu]; exact h1, h2⟩, fun j hj => ?_⟩
+      match j with
+      | 0 => exact ⟨s, rfl, rfl⟩
+      | j + 1 =>
+        obtain ⟨sj, h4, h5⟩ := h3 j (by omega)
+        exact ⟨sj, by rw [updN_succ, hu]; exact h4, h5⟩
+
+/-- **backwards without a loop**: from play-head position `p` the transport ends after `p + 1`
+    steps (frame 0 is played), and the sound is Stopped exactly 4 steps later. -/
+theorem backward_ends : ∀ (p : Nat) (s : StaticSound ℝ), s.SliceOk → s.transport.playing = true →
+    s.transport.loopRegion = none → s.isPlayingBackwards = true → s.transport.position = p →
+    (∃ s', updN (p + 1 + 4) s = .ok s' ∧ s'.IsStopped) ∧ ∀ j, j < p + 1 + 4 → ∃ sj, updN j s = .ok sj ∧ sj.core = s.core := by
+  intro p
+  induction p with
+  | zero =>
+    intro s hs hp hl hbw hpos
+    have ht : stepDir s.isPlayingBackwards s.nFrames s.transport = .ok { s.transport with playing := false } := by
+      unfold stepDir; simp only [hbw, if_true]
+      rw [Transport.decrement_noLoop _ hp hl]; simp [hpos]
+    obtain ⟨f, hu⟩ := updatePosition_playing s hs hp _ ht
+    have := drain 4 { s with resampler := s.resampler.pushFrame (some f) s.transport.position,
+                             transport := { s.transport with playing := false } }
+      hs rfl (by simp [Resampler.pushFrame]) (by omega)
+    obtain ⟨⟨s', h1, h2⟩, h3⟩ := this
+    refine ⟨⟨s', by rw [show 0 + 1 + 4 = 4 + 1 by omega, updN_succ, hu]; exact h1, h2⟩, fun j hj => ?_⟩
+    match j with
+    | 0 => exact ⟨s, rfl, rfl⟩
+    | j + 1 =>
+      obtain ⟨sj, h4, h5⟩ := h3 j (by omega)
+      exact ⟨sj, by rw [updN_succ, hu]; exact h4, h5⟩
+  | succ p ih =>
+    intro s hs hp hl hbw hpos
+    have ht : stepDir s.isPlayingBackwards s.nFrames s.transport = .ok { s.transport with position := p } := by
+      unfold stepDir; simp only [hbw, if_true]
+      rw [Transport.decrement_noLoop _ hp hl]; simp [hpos]
+    obtain ⟨f, hu⟩ := updatePosition_playing s hs hp _ ht
+    have := ih { s with resampler := s.resampler.pushFrame (some f) s.transport.position,
+                        transport := { s.transport with position := p } } hs hp hl hbw rfl
+    obtain ⟨⟨s', h1, h2⟩, h3⟩ := this
+    refine ⟨⟨s', by rw [show p + 1 + 1 + 4 = (p + 1 + 4) + 1 by omega, updN_succ, hu]; exact h1, h2⟩, fun j hj => ?_⟩
+    match j with
+    | 0 => exact ⟨s, rfl, rfl⟩
+    | j + 1 =>
+      obtain ⟨sj, h4, h5⟩ := h3 j (by omega)
+      exact ⟨sj, by rw [updN_succ, hu]; exact h4, h5⟩
+
 /-! ### a freshly built sound -/
 
 /-- settings that leave the source untouched: 0 dB, centre, no fade-in, immediate start, fixed rate `r` -/
